@@ -309,6 +309,7 @@ func (db *RockDB) ZAdd(ts int64, key []byte, args ...common.ScorePair) (int64, e
 	defer wb.Clear()
 
 	var num int64
+	args = dedupScorePairs(args)
 	for i := 0; i < len(args); i++ {
 		score := args[i].Score
 		member := args[i].Member
@@ -467,6 +468,7 @@ func (db *RockDB) ZRem(ts int64, key []byte, members ...[]byte) (int64, error) {
 	defer wb.Clear()
 
 	var num int64 = 0
+	members = dedupMembers(members)
 	for i := 0; i < len(members); i++ {
 		if err := common.CheckKeySubKey(key, members[i]); err != nil {
 			return 0, err
